@@ -36,6 +36,7 @@ template<class Cfg> ModelTraits backend_traits() {
 	T.static_arrays = Cfg::static_arrays;
 	T.throwing_move = ET::throwing_move;
 	T.always_equal  = Cfg::always_equal;
+	T.tracked_is_triv = std::is_same_v<typename Cfg::elem, Triv>;
 	return T;
 }
 
